@@ -590,3 +590,117 @@ void run_case(Src &s, Ctx &c) {
     if (r.obs != obsA) c.fail(COPY, "tree:scribble-changes-result", "observed results differ between the undisturbed run and the run with scribbled caller buffers / retained copies");
     if (sanB > sanA) c.fail(COPY, "tree:retained-copy-memory-error", "%d more sanitizer report(s) when copies are retained and caller buffers freed: %s", sanB - sanA, g_san_last);
 }
+
+// ---------------------------------------------------------------------------------------------
+// Bounded-exhaustive part shared by C01 and C02: breadth-first search over EVERY tree state
+// reachable from the empty table by put/remove over a universe of K keys (dedup on the exact
+// shape: keys + colours in pre-order).  From every state every transition is exercised - put of
+// each key (new, or re-put with a new value) and remove of each key (present or absent) - and
+// after each one the table is compared with the model (C01) and checked by the independent
+// LLRB predicate + qtreetbl_check() + lookup cost (C02).  Each worker runs the complete search
+// for one configuration (comparator / key family).
+namespace {
+struct EOp { bool put; int key; };
+std::string shape_of(qtreetbl_obj_t *o, const std::vector<std::string> &keys) {
+    if (!o) return ".";
+    int idx = -1;
+    for (size_t i = 0; i < keys.size(); i++) if (cmp_kind(g_cmpkind, keys[i].data(), keys[i].size(), o->name, o->namesize) == 0) idx = (int)i;
+    return strf("(%d%c", idx, o->red ? 'r' : 'b') + shape_of(o->left, keys) + shape_of(o->right, keys) + ")";
+}
+}  // namespace
+
+bool vf_enumerate(Ctx &c, EnumStats &st) {
+    int shard = 0, nshards = 1;
+    if (const char *e = getenv("VF_ENUM_SHARD")) sscanf(e, "%d/%d", &shard, &nshards);
+    int K = c.tier ? 11 : 9;
+    int variant = shard % 5;
+    g_cmpkind = variant;
+    if (shard >= 5) K -= 1 + (shard - 5) / 5;          // further workers: smaller universes of the same families with other key bytes
+    if (K < 4) K = 4;
+    std::vector<std::string> keys;
+    for (int i = 0; i < K; i++) {
+        std::string k;
+        if (variant == 4) { uint32_t v = (uint32_t)(i * 37 + shard); k.assign((const char *)&v, 4); }
+        else if (variant == 3) { k = std::string(1, (char)((i & 1 ? 'a' : 'A') + i)) + (i % 3 == 0 ? "x" : ""); }
+        else if (variant == 2) { k = std::string((size_t)(1 + i % 4), (char)('a' + i)); }
+        else { static const char *fam[] = {"a", "ab", "abc", "b", "", "ba", "c", "ca", "cab", "d", "da", "e"}; k = std::string(fam[i % 12]) + std::string(1, '\0'); if (i >= 12) k = "z" + k; }
+        keys.push_back(k);
+    }
+    auto fresh = [&]() { qtreetbl_t *t = qtreetbl(0); if (!t) throw CaseStop{"ctor"}; qtreetbl_set_compare(t, user_cmp); return t; };
+    g_cmp_budget = 0; g_cmp_jb_armed = false;
+    std::map<std::string, std::vector<EOp>> seen;      // shape -> shortest history
+    std::vector<std::string> frontier{"."};
+    seen["."] = {};
+    uint64_t valctr = 0;
+    while (!frontier.empty()) {
+        std::vector<std::string> next;
+        for (auto &shape : frontier) {
+            const std::vector<EOp> hist = seen[shape];
+            for (int tr = 0; tr < 2 * K; tr++) {
+                EOp op{tr < K, tr % K};
+                // rebuild the state, then apply the transition
+                qtreetbl_t *t = fresh();
+                struct G { qtreetbl_t *t; ~G() { qtreetbl_free(t); } } g{t};
+                std::map<int, std::string> model;
+                auto apply = [&](const EOp &o, bool checked) {
+                    const std::string &k = keys[(size_t)o.key];
+                    if (o.put) {
+                        std::string v = strf("v%llu", (unsigned long long)++valctr);
+                        bool ok = qtreetbl_putobj(t, k.data(), k.size(), v.data(), v.size());
+                        if (!ok && checked) c.fail(FUNC, "tree:put-failed", "put(key %d) failed", o.key);
+                        model[o.key] = v;
+                    } else {
+                        errno = 0;
+                        bool ok = qtreetbl_removeobj(t, k.data(), k.size());
+                        bool present = model.count(o.key) > 0;
+                        if (checked && ok != present) c.fail(FUNC, "tree:remove-result", "remove(key %d) returned %d but the key was %s", o.key, (int)ok, present ? "present" : "absent");
+                        model.erase(o.key);
+                    }
+                };
+                for (auto &o : hist) apply(o, false);
+                if (c.verbose) c.op("state %s: %s key %d", shape.c_str(), op.put ? "put" : "remove", op.key);
+                c.trace = "enumerated LLRB state " + shape + " then " + (op.put ? "put" : "remove") + strf(" key %d (%s)", op.key, hexs(keys[(size_t)op.key]).c_str());
+                apply(op, true);
+                st.transitions++; st.evaluations++;
+                // C01: contents
+                if (qtreetbl_size(t) != model.size()) c.fail(FUNC, "tree:size", "size()=%zu, model %zu", qtreetbl_size(t), model.size());
+                for (int i = 0; i < K; i++) {
+                    size_t sz = 0; long c0 = g_cmp_count;
+                    void *p = qtreetbl_getobj(t, keys[(size_t)i].data(), keys[(size_t)i].size(), &sz, false);
+                    long used = g_cmp_count - c0;
+                    auto it = model.find(i);
+                    if ((p != nullptr) != (it != model.end())) c.fail(FUNC, it == model.end() ? "tree:get-absent" : "tree:get-missing", "key %d is %s but get says otherwise", i, it == model.end() ? "absent" : "present");
+                    if (p && (sz != it->second.size() || memcmp(p, it->second.data(), sz) != 0)) c.fail(FUNC, "tree:get-bytes", "key %d returns the wrong value", i);
+                    size_t n = model.size();
+                    if (n > 0) { int bound = (int)floor(2.0 * log2((double)n + 1.0) + 1e-9); if (used > bound) c.fail(COST, "tree:lookup-cost", "get among %zu keys used %ld comparisons, bound %d", n, used, bound); }
+                }
+                if (!model.empty()) {
+                    // least / greatest key under the comparator
+                    int mn = -1, mx = -1;
+                    for (auto &kv : model) { if (mn < 0 || cmp_kind(g_cmpkind, keys[(size_t)kv.first].data(), keys[(size_t)kv.first].size(), keys[(size_t)mn].data(), keys[(size_t)mn].size()) < 0) mn = kv.first; if (mx < 0 || cmp_kind(g_cmpkind, keys[(size_t)kv.first].data(), keys[(size_t)kv.first].size(), keys[(size_t)mx].data(), keys[(size_t)mx].size()) > 0) mx = kv.first; }
+                    size_t ns = 0; void *p = qtreetbl_find_min(t, &ns);
+                    if (!p || cmp_kind(g_cmpkind, p, ns, keys[(size_t)mn].data(), keys[(size_t)mn].size()) != 0) { free(p); c.fail(FUNC, "tree:minmax-key", "find_min is not key %d", mn); }
+                    free(p);
+                    p = qtreetbl_find_max(t, &ns);
+                    if (!p || cmp_kind(g_cmpkind, p, ns, keys[(size_t)mx].data(), keys[(size_t)mx].size()) != 0) { free(p); c.fail(FUNC, "tree:minmax-key", "find_max is not key %d", mx); }
+                    free(p);
+                }
+                // C02: shape
+                Shape sh = check_shape(t);
+                int lib = qtreetbl_check(t);
+                if (!sh.ok) c.fail(SHAPE, "tree:shape", "%s (qtreetbl_check()=%d)", sh.why, lib);
+                int bh; bool rules = !(t->root && t->root->red) && shape_rules_only(t->root, &bh);
+                if (rules != (lib == 0)) c.fail(SHAPE, "tree:selfcheck-disagrees", "independent checker says %s, qtreetbl_check()=%d", rules ? "valid" : "invalid", lib);
+                if (sh.count != t->num) c.fail(SHAPE, "tree:count", "%zu nodes reachable but num=%zu", sh.count, t->num);
+                std::string ns = shape_of(t->root, keys);
+                if (!seen.count(ns)) { std::vector<EOp> h2 = hist; h2.push_back(op); seen[ns] = h2; next.push_back(ns); if (st.samples.size() < 4 && seen.size() % 397 == 5) st.samples.push_back("reached state " + ns + " after " + std::to_string(h2.size()) + " ops"); }
+                if (!op.put && model.size() >= 2) st.nontrivial++;
+            }
+        }
+        frontier.swap(next);
+    }
+    st.states = seen.size();
+    st.extra["max_key_universe"] = (uint64_t)K;
+    st.samples.push_back(strf("complete BFS: comparator kind %d, %d keys, %zu distinct tree states, %llu transitions", variant, K, seen.size(), (unsigned long long)st.transitions));
+    return true;
+}
